@@ -216,3 +216,66 @@ Print Assumptions mcd_prefix_test_refuted.
 Theorem gen_mcd_name_tests : Gen_C11_mcd.name_tests = GenTie.expected_name_tests.
 Proof. exact GenTie.name_tests_ok. Qed.
 Print Assumptions gen_mcd_name_tests.
+
+(* ---------------------------------------------------------------------------------------------
+   Multicomponent diffusion: how many sub-steps init_mix chooses (explicit branch; diffc_max is a parameter) *)
+From IPV.C11 Require Import McdMix McdMixProofs.
+
+(* for ANY column (any number of cells, any lengths) the count returned keeps the Fourier number per sub-step of EVERY
+   interface at or below 2/3 and the doubled boundary number of a constant boundary at or below 4/9 *)
+Theorem mcd_substeps_bound_every_interface : forall (c : cfg) (dmax s : Q),
+  let mx := snd (mcd_maxmix c dmax) in
+  let nm := inject_Z (mcd_nmix c mx s) in
+  Forall (fun p => fourier (dmax * timest c) (fst p) (snd p) <= (2 # 3) * nm) (interfaces (cells c)) /\
+  (bcf c = 1%Z -> bnd_fourier (dmax * timest c) (head_cell (cells c)) <= (4 # 9) * nm) /\
+  (bcl c = 1%Z -> bnd_fourier (dmax * timest c) (last_cell (cells c)) <= (4 # 9) * nm).
+Proof. exact McdMixProofs.mcd_substeps_bound_every_interface. Qed.
+Print Assumptions mcd_substeps_bound_every_interface.
+
+(* the checker run on the implementation: reported number of mixruns = model's, hence every interface is stable *)
+Theorem check_mcd_nmix_sound : forall (c : cfg) (dmax s : Q) (r : Z),
+  check_mcd_nmix c dmax s r = true ->
+  Forall (fun p => fourier (dmax * timest c) (fst p) (snd p) <= (2 # 3) * inject_Z r) (interfaces (cells c)).
+Proof. exact McdMixProofs.check_mcd_nmix_sound. Qed.
+Print Assumptions check_mcd_nmix_sound.
+
+(* T-gen for the multi_D branch of init_mix *)
+Theorem gen_initmix_mcd_shape : Gen_C11_initmix.shape_mcd = GenTie.expected_shape_mcd.
+Proof. exact GenTie.shape_mcd_ok. Qed.
+Print Assumptions gen_initmix_mcd_shape.
+
+Theorem gen_initmix_mcd_fourier : forall dmax t a b,
+  fourier (dmax * t) a b ==
+  (let lv := D_v00_1 (env [("length[v08+1]"%string, len b); ("length[v08]"%string, len a)]) in
+   D_v06_1 (env [("diffc_max"%string, dmax); ("timest"%string, t); ("v00"%string, lv)])).
+Proof. exact GenTie.gen_mcd_fourier. Qed.
+Print Assumptions gen_initmix_mcd_fourier.
+
+Theorem gen_initmix_mcd_bnd_fourier : forall dmax t c,
+  bnd_fourier (dmax * t) c == D_v06_2 (env [("diffc_max"%string, dmax); ("timest"%string, t); ("length[1]"%string, len c)]) /\
+  bnd_fourier (dmax * t) c == D_v06_3 (env [("diffc_max"%string, dmax); ("timest"%string, t); ("length[count_cells]"%string, len c)]).
+Proof. exact GenTie.gen_mcd_bnd_fourier. Qed.
+Print Assumptions gen_initmix_mcd_bnd_fourier.
+
+Theorem gen_initmix_mcd_maxmix : forall mx v m m1,
+  upmax mx v == (if Qltb mx v then D_v03_1 (env [("v06"%string, v)]) else mx) /\
+  upmax mx v == (if Qltb mx v then D_v03_3 (env [("v06"%string, v)]) else mx) /\
+  upmax mx v == (if Qltb mx v then D_v03_5 (env [("v06"%string, v)]) else mx) /\
+  upmax mx (m + m1) == (let mf := D_v02_1 (env [("v10[v08]"%string, m); ("v11[v08]"%string, m1)]) in
+                        if Qltb mx mf then D_v03_2 (env [("v02"%string, mf)]) else mx) /\
+  upmax mx (sum2 (m, m1)) == (let mf := D_v02_2 (env [("v10[1]"%string, m); ("v11[1]"%string, m1)]) in
+                        if Qltb mx mf then D_v03_4 (env [("v02"%string, mf)]) else mx) /\
+  upmax mx (sum2 (m, m1)) == (let mf := D_v02_3 (env [("v10[count_cells]"%string, m); ("v11[count_cells]"%string, m1)]) in
+                        if Qltb mx mf then D_v03_6 (env [("v02"%string, mf)]) else mx).
+Proof. exact GenTie.gen_mcd_maxmix. Qed.
+Print Assumptions gen_initmix_mcd_maxmix.
+
+Theorem gen_initmix_mcd_nmix : forall c mx s,
+  inject_Z (mcd_nmix c mx s) ==
+  (if Qeq_bool mx 0 then D_v09_1 (env [])
+   else let cb := Z.eqb (bcf c) 1 || Z.eqb (bcl c) 1 in
+        let k := if cb then D_v09_7 (env [("v03"%string, mx)]) else D_v09_8 (env [("v03"%string, mx)]) in
+        let k' := if adv c && cb && Qltb k (2 # 1) then D_v09_9 (env []) else k in
+        if Qltb 1 s then D_v09_10 (env [("v09"%string, k'); ("mcd_substeps"%string, s)]) else k').
+Proof. exact GenTie.gen_mcd_nmix. Qed.
+Print Assumptions gen_initmix_mcd_nmix.
